@@ -185,6 +185,12 @@ def run_check(pid, tier, seed, wall_cap=None, out_evidence=True, verbose=True):
                 if a.reached.get(c, 0) == 0:
                     harness_errors.append((a.q.qid, f"vacuous: clause {c} never reached"))
 
+    reached_all = _sumdict([a.reached for a in aggs])
+    if not inconclusive:
+        for c in getattr(mod, "REQUIRED", []):
+            if reached_all.get(c, 0) == 0:
+                harness_errors.append(("*", f"vacuous: clause {c} never reached by any query of the property"))
+
     # replay files + fresh-interpreter confirmation for new violations
     lines = []
     rdir = os.path.join(VERIF, "replays", pid)
